@@ -6,6 +6,7 @@ import Model.Lib.Adders
 import Model.Gen.Conv
 import Model.Lib.Muxes
 import Model.Pass.Cond
+import Model.Sim.FastSim
 /-! `basic` command: the Lean models of the bit-level generators on concrete operands. -/
 open Lean
 namespace Pyrtl.Drv
@@ -177,5 +178,19 @@ def cmdCond (j : Lean.Json) : Except String Lean.Json := do
       Lean.Json.arr #[natJson (chain ρ dflt (asgs.map fun a => (a.1, a.2.1))), natJson nactive, .bool specAgree]
     return Lean.Json.mkObj [("conflict", .bool conflict), ("rows", .arr rows.toArray)]
   return Lean.Json.mkObj [("ok", .bool true), ("targets", .arr outs.toArray)]
+
+
+/-- `fsel`: the runs FastSimulation's select emitter forms for an index tuple, and the value of the
+    emitted expression (model `FastSim.exec`) on the given argument values -/
+def cmdFsel (j : Json) : Except String Json := do
+  let idx ← jNatList (← field j "idx")
+  let wa ← jNat (← field j "wa")
+  let dw ← jNat (← field j "dw")
+  let vals ← jNatList (← field j "vals")
+  let rs := FastSim.runs idx
+  let outs := vals.map fun (a : Nat) => FastSim.exec (.select idx) [(wa, (a : Int))] dw
+  return Json.mkObj [("ok", .bool true),
+    ("runs", .arr (rs.map fun r => Json.arr #[natJson r.start, natJson r.len, natJson r.res]).toArray),
+    ("vals", .arr (outs.map intJson).toArray)]
 
 end Pyrtl.Drv
